@@ -3,6 +3,7 @@ import Comdex.Model.AmmPool
 import Comdex.Model.AmmKeeper
 import Comdex.Model.AmmDust
 import Comdex.Model.AmmRanged
+import Comdex.Model.AmmOrders
 /-! Driver for the batch-matching model (property C05).
 
 Lines (tab separated, after the sequence number):
@@ -36,6 +37,11 @@ Lines (tab separated, after the sequence number):
   amm.k.begin <tickPrecision>                        a fresh pair on the REAL keeper (no pools)
   amm.k.place <dir> <msgPrice> <amount> <expireAt> <ok|err> <id> <price> <offer> <batchId>
         real MsgLimitOrder through the message router; the stored order's id / tick-fitted price / offer coin / batch id
+  amm.k.params <maxPriceLimitRatio> <maxNumMarketMakingOrderTicks>     the pair's parameters (after amm.k.begin)
+  amm.k.market <dir> <amount> <expireAt> <ok|err> <id> <price> <offer> <batchId>
+        real MsgMarketOrder through the message router; price = last price ± ratio fitted to the grid (`placeMarket`)
+  amm.k.mm <owner> <buyMin> <buyMax> <buyAmt> <sellMin> <sellMax> <sellAmt> <expireAt> <ok|err> <orders>
+        real MsgMMOrder; the stored tick orders `id:dir:price:amount:offer:batch` (`placeMM`: MMOrderTicks, cancelMMOrder)
   amm.k.batch <now> <lastPrice|none> <currentBatchId> <orders>
         real liquidity.EndBlocker (ExecuteRequests → ExecuteMatching, ApplyMatchResult, expiry); every stored order of the pair
         `id:open:remaining:received:status` joined by `;` (before the next BeginBlocker prunes finished orders)
@@ -59,6 +65,9 @@ structure St where
   orders : List Order := []
   k : KState := KState.init        -- stored orders of the keeper-level sequences
   kprec : Nat := 4
+  kratio : Int := 100000000000000000          -- MaxPriceLimitRatio (raw)
+  kticks : Nat := 10                          -- MaxNumMarketMakingOrderTicks
+  mmIndex : List (Nat × List Nat) := []
 
 def init : St := {}
 
@@ -269,8 +278,40 @@ def handle (st : St) (seq : String) (f : List String) : St × List String :=
       (st, if m = r then [] else [s!"DIFF\t{seq}\tmodel={m}\timpl={r}"])
   | ["amm.k.begin", prec] =>
     match parseNat? prec with
-    | some prec => ({ st with k := KState.init, kprec := prec }, [])
+    | some prec => ({ st with k := KState.init, kprec := prec, mmIndex := [] }, [])
     | none => (st, [s!"BAD\t{seq}\tk.begin"])
+  | ["amm.k.params", ratio, ticks] =>
+    match parseInt? ratio, parseNat? ticks with
+    | some r, some t => ({ st with kratio := r, kticks := t }, [])
+    | _, _ => (st, [s!"BAD\t{seq}\tk.params"])
+  | ["amm.k.market", dir, amt, exp, outcome, id, price, offer, batch] =>
+    match (if dir = "1" then some Dir.buy else if dir = "2" then some Dir.sell else none), parseInt? amt, parseInt? exp with
+    | some d, some amt, some exp =>
+      match placeMarket st.k st.kprec st.kratio d amt exp with
+      | none =>
+        -- the model rejects (no last price): the real message must have been rejected too
+        (st, if outcome = "ok" then [s!"DIFF\t{seq}\tmodel=rejected (no last price)\timpl=ok {id}"] else [])
+      | some (k', so) =>
+        if outcome != "ok" then (st, []) else
+        let m := s!"{so.id}\t{so.price}\t{so.offer}\t{so.batchId}"
+        let r := s!"{id}\t{price}\t{offer}\t{batch}"
+        ({ st with k := k' }, if m = r then [] else [s!"DIFF\t{seq}\tmodel={m}\timpl={r}"])
+    | _, _, _ => (st, [s!"BAD\t{seq}\tk.market"])
+  | ["amm.k.mm", owner, bmin, bmax, bamt, smin, smax, samt, exp, outcome, orders] =>
+    match parseNat? owner, parseInt? bmin, parseInt? bmax, parseInt? bamt, parseInt? smin, parseInt? smax, parseInt? samt, parseInt? exp with
+    | some owner, some bmin, some bmax, some bamt, some smin, some smax, some samt, some exp =>
+      let buy := if bamt > 0 then some (bmin, bmax, bamt) else none
+      let sell := if samt > 0 then some (smin, smax, samt) else none
+      match placeMM ⟨st.k, st.mmIndex⟩ st.kprec st.kticks owner buy sell exp with
+      | none =>
+        (st, if outcome = "ok" then [s!"DIFF\t{seq}\tmodel=rejected (same batch)\timpl=ok {orders}"] else [])
+      | some st' =>
+        if outcome != "ok" then (st, []) else
+        let fresh := st'.k.orders.filter (fun so => decide (so.id ≥ st.k.nextId))
+        let m := ";".intercalate (fresh.map fun so =>
+          s!"{so.id}:{if so.dir = Dir.buy then 1 else 2}:{so.price}:{so.amount}:{so.offer}:{so.batchId}")
+        ({ st with k := st'.k, mmIndex := st'.mmIndex }, if m = orders then [] else [s!"DIFF\t{seq}\tmodel={m}\timpl={orders}"])
+    | _, _, _, _, _, _, _, _ => (st, [s!"BAD\t{seq}\tk.mm"])
   | ["amm.k.place", dir, mp, amt, exp, outcome, id, price, offer, batch] =>
     if outcome != "ok" then (st, []) else
     match (if dir = "1" then some Dir.buy else if dir = "2" then some Dir.sell else none), parseInt? mp, parseInt? amt, parseInt? exp with
